@@ -495,7 +495,42 @@ def rule_stored(program, ctx):
             ctx.bad(finding_at(P, rid, e, f"LMDB record[{i}] is `{src}`: not the validated event's own field through a reversible codec", text=str(i)))
 
 
+def rule_config(program, ctx, prop=P, rid="C03.config"):
+    ctx.rule(
+        rid,
+        "who-may-write: the `validators` entry of the storage configuration is only *read* (BaseStorage.__init__ pops it with the default [is_signed]); "
+        "no code in the package stores to / rebuilds `Config.storage['validators']` or an options['validators'] - writing a list there (even an empty or "
+        "filtered one) disables the default chain, and with it the signature check",
+        floor=1,
+    )
+    n_read = 0
+    for m in program.modules.values():
+        if m.rel.startswith("<dep>"):
+            continue
+        for n in ast.walk(m.tree):
+            tgt = None
+            if isinstance(n, (ast.Assign, ast.AugAssign, ast.AnnAssign, ast.Delete)):
+                tgts = n.targets if isinstance(n, (ast.Assign, ast.Delete)) else [n.target]
+                for t in tgts:
+                    if isinstance(t, ast.Subscript) and isinstance(t.slice, ast.Constant) and t.slice.value in ("validators",) and "Validator" not in ast.unparse(t.value):
+                        tgt = t
+            if isinstance(n, ast.Call) and isinstance(n.func, ast.Attribute) and n.func.attr in ("update", "setdefault", "__setitem__") and "storage" in ast.unparse(n.func.value).lower() \
+                    and any(isinstance(a, ast.Constant) and a.value == "validators" for a in ast.walk(n)):
+                tgt = n
+            if tgt is not None:
+                ctx.bad(finding_at(prop, rid, n, f"`{norm(n, 80)}` writes the `validators` configuration: the chain BaseStorage builds is no longer the configured one / the default "
+                                   "[is_signed] (an absent key becomes a present, possibly empty list)"))
+            if isinstance(n, ast.Call) and isinstance(n.func, ast.Attribute) and n.func.attr in ("pop", "get") and n.args and isinstance(n.args[0], ast.Constant) and n.args[0].value == "validators":
+                n_read += 1
+                ctx.ok(rid, n, f"read with default: {norm(n, 80)}")
+    if not n_read:
+        raise AnalysisError("no read of the `validators` option found")
+
+
 def run(program, ctx):
+    from ..lib import rule_awaited
+
+    rule_awaited(program, ctx, P, ANCHORS)
     from . import c04
 
     c04.rule_canonical(program, ctx, prop=P, rid="C03.canonical")
@@ -506,6 +541,10 @@ def run(program, ctx):
     rule_is_signed(program, ctx)
     rule_id(program, ctx)
     rule_closed(program, ctx)
+    from . import c16
+
+    c16.rule_handlers(program, ctx, prop=P, rid="C03.handlers")
+    rule_config(program, ctx)
     ctx.not_decided += [
         "correctness of BIP-340 verification, SHA-256 and canonical serialisation inside aionostr/coincurve",
         "NIP-26 delegation conditions (only that a failed delegation signature makes verify() falsy is read)",
